@@ -286,6 +286,31 @@ def _block_norm(fam, d, path):
     return math.sqrt(sum(x * x for x in blk))
 
 
+def _numeric_gap(fam, dx, dy, tol):
+    """None if the descriptors differ discretely (type / id / size / order / structure); else the largest block-wise
+    |difference| / max(|block of x|, |block of y|, tol) in units of tol."""
+    sx, sy = numeric_slots(fam, dx), numeric_slots(fam, dy)
+    if [p for p, _ in sx] != [p for p, _ in sy]:
+        return None
+    bx, by = copy.deepcopy(dx), copy.deepcopy(dy)
+    for p, _ in sx:
+        _set(bx, p, 0.0)
+        _set(by, p, 0.0)
+    if bx != by:
+        return None
+    blocks = {}
+    for (p, a), (_, b) in zip(sx, sy):
+        key = tuple(str(k) for k in (p[: p.index("om") + 1] if "om" in p else p[:-1]))
+        d = blocks.setdefault(key, [0.0, 0.0, 0.0])
+        d[0] += (a - b) ** 2
+        d[1] += a * a
+        d[2] += b * b
+    worst = 0.0
+    for d2, nx, ny in blocks.values():
+        worst = max(worst, math.sqrt(d2) / max(math.sqrt(nx), math.sqrt(ny), tol))
+    return worst / tol
+
+
 def _do(acc, case):
     acc.evals += 1
     acc.states += 1
@@ -361,10 +386,13 @@ def _eval_unguarded(case):
             classes.append("discrete")
         if fam == "pose" and dx[0] != dy[0]:
             classes.append("cross_type")
+        gap = None if same else _numeric_gap(fam, dx, dy, tol)
         if r == "X":
             msgs.append("%s.equals raised %s for the well-formed pair %r vs %r" % (fam, err, dx, dy))
         elif same and r != "T":
             msgs.append("%s.equals(copy) returned False for %r (tol %g)" % (fam, dx, tol))
+        elif not same and gap is not None and gap < 100.0:
+            pass  # the two pool members differ only numerically and by less than 100 x tol (relative to the norm used): not judged
         elif not same and r != "F":
             msgs.append("%s.equals returned True for different objects %r vs %r (tol %g)" % (fam, dx, dy, tol))
         # an object and its deep copy / its own copy()
